@@ -1218,10 +1218,236 @@ namespace
         vf::clause_hit(ids[&mg - SMAGS]);
     }
     VF_SUITE(stimer, stimer_count, stimer_run)
+
+    // ---- unsigned clocks: timer_spec<uint32_t> / timer_spec<uint64_t> (added after seeded C16-r5s2) -----------------
+    // The manager is a template over the time type; tick counters are commonly unsigned. Two classes:
+    //  (A) every deadline representable in the type, starts never in the future: the whole statement applies and is
+    //      compared with a reference kept in 128-bit arithmetic (online in the callbacks + state after every step);
+    //  (B) ONE timer whose deadline start+interval lies beyond the type's maximum while the clock stays in range and
+    //      never decreases: under the mathematical and under the modular reading of "deadline" alike it is not due,
+    //      so the only clause is "never fires, stays planned". (Several timers with unrepresentable deadlines are not
+    //      driven: plan() orders by the wrapped finish(), which the unchanged tree does too - DESIGN 6.)
+    template <class T> struct UClock
+    {
+        using Spec = igris::timer_spec<T>;
+        using Mgr = igris::timer_manager_basic<Spec>;
+        using Tim = igris::timer_basic<Spec, int>;
+        struct Ref
+        {
+            bool planned = false, oneshot = false;
+            unsigned __int128 start = 0, interval = 0;
+            unsigned __int128 deadline() const { return start + interval; }
+        };
+        static inline UClock *cur;
+        Mgr *mgr = nullptr;
+        Tim *tim[4] = {};
+        Ref ref[4];
+        int n = 0, fired = 0;
+        bool in_exec = false, beyond = false;
+        unsigned __int128 now = 0;
+        std::string hist;
+        static void cb(int i) { cur->on_fire(i); }
+        void bad(const char *key, const char *fmt, ...) __attribute__((format(printf, 3, 4)))
+        {
+            char msg[300];
+            va_list ap;
+            va_start(ap, fmt);
+            vsnprintf(msg, sizeof msg, fmt, ap);
+            va_end(ap);
+            std::string h = hist.size() > 1200 ? "... " + hist.substr(hist.size() - 1200) : hist;
+            vf::fail(key, "%s | %u-bit unsigned clock, history: %s", msg, (unsigned)sizeof(T) * 8, h.c_str());
+        }
+        void on_fire(int i)
+        {
+            fired++;
+            Ref &r = ref[i];
+            if (!in_exec)
+                bad("uclock:callback-outside-exec", "timer %d ran outside exec()", i);
+            if (!r.planned)
+                bad("uclock:unplanned-fired", "timer %d fired although it is not pending in the reference", i);
+            if (beyond)
+                bad("uclock:fired-before-unrepresentable-deadline", "timer %d fired at now=%llu, start=%llu interval=%llu: its deadline lies beyond the clock's range",
+                    i, (unsigned long long)now, (unsigned long long)r.start, (unsigned long long)r.interval);
+            if (r.deadline() > now)
+                bad("uclock:fired-early", "timer %d fired at now=%llu before its deadline %llu", i, (unsigned long long)now, (unsigned long long)r.deadline());
+            for (int k = 0; k < n; k++)
+                if (ref[k].planned && ref[k].deadline() < r.deadline())
+                    bad("uclock:order", "timer %d (deadline %llu) fired while timer %d (deadline %llu) is pending", i, (unsigned long long)r.deadline(), k,
+                        (unsigned long long)ref[k].deadline());
+            VF_OK("unsigned clock: fired timer is pending, due and has the minimum pending deadline");
+            if (r.oneshot)
+            {
+                tim[i]->unplan();
+                r.planned = false;
+            }
+            else
+                r.start += r.interval;
+        }
+        void compare()
+        {
+            bool any = false;
+            unsigned __int128 best = 0;
+            for (int k = 0; k < n; k++)
+            {
+                if (tim[k]->is_planned() != ref[k].planned)
+                    bad("uclock:pending!=reference", "timer %d is_planned=%d, reference %d", k, (int)tim[k]->is_planned(), (int)ref[k].planned);
+                if (!ref[k].planned || beyond)
+                    continue;
+                if ((unsigned __int128)tim[k]->finish() != ref[k].deadline())
+                    bad("uclock:deadline!=reference", "timer %d finish()=%llu, reference %llu", k, (unsigned long long)tim[k]->finish(),
+                        (unsigned long long)ref[k].deadline());
+                if (!any || ref[k].deadline() < best)
+                    best = ref[k].deadline();
+                any = true;
+            }
+            if (!beyond)
+            {
+                if (mgr->empty() == any)
+                    bad("uclock:empty!=reference", "empty()=%d, reference has %s pending timer", (int)mgr->empty(), any ? "a" : "no");
+                if (any && best >= now && (unsigned __int128)mgr->minimal_interval((T)now) != best - now)
+                    bad("uclock:minimal_interval", "minimal_interval(%llu)=%llu, reference %llu", (unsigned long long)now,
+                        (unsigned long long)mgr->minimal_interval((T)now), (unsigned long long)(best - now));
+            }
+            VF_OK("unsigned clock: pending set, deadlines, empty() and minimal_interval == reference after every step");
+        }
+        void run(vf::Rng &r, uint64_t &hh)
+        {
+            cur = this;
+            const unsigned __int128 MAXV = (T)~(T)0;
+            char b[160];
+            beyond = r.below(4) == 0;
+            mgr = new Mgr;
+            n = beyond ? 1 : 1 + (int)r.below(4);
+            for (int i = 0; i < n; i++)
+                tim[i] = new Tim(igris::make_delegate(cb), (int)i);
+            const int steps = beyond ? 12 : 60;
+            if (beyond)
+            {
+                // start = MAX - a, interval = a + b  (deadline = MAX + b), clock walks from start up to MAX
+                uint64_t a = 1 + r.below(r.below(2) ? 40 : 100000), bb = 1 + r.below(r.below(2) ? 3 : 1000);
+                now = MAXV - a;
+                ref[0].planned = true;
+                ref[0].oneshot = false;
+                ref[0].start = now;
+                ref[0].interval = a + bb;
+                mgr->plan(*tim[0], (T)now, (typename Spec::difftime_t)(a + bb));
+                snprintf(b, sizeof b, "plan(t0,start=MAX-%llu,interval=%llu); ", (unsigned long long)a, (unsigned long long)(a + bb));
+                hist += b;
+                hh = vf::mix(hh, a * 1000003 + bb);
+                compare();
+                for (int s = 0; s < steps; s++)
+                {
+                    unsigned __int128 room = MAXV - now;
+                    uint64_t dt = s == steps - 1 ? (uint64_t)room : (uint64_t)(room ? r.below((uint64_t)room + 1) / (1 + r.below(4)) : 0);
+                    now += dt;
+                    snprintf(b, sizeof b, "exec(MAX-%llu); ", (unsigned long long)(MAXV - now));
+                    hist += b;
+                    in_exec = true;
+                    mgr->exec((T)now);
+                    in_exec = false;
+                    compare();
+                }
+                VF_OK("unsigned clock: a single timer whose deadline lies beyond the clock's range never fires while the clock stays in range");
+            }
+            else
+            {
+                static const uint64_t IV[] = {1, 2, 5, 7, 100, 1000};
+                int cls = (int)r.below(3);
+                // clock bases: small; crossing 2^31; close to the top of the range (everything stays representable)
+                now = cls == 0 ? 50 : cls == 1 ? ((unsigned __int128)1 << 31) - 300 : MAXV - 400000;
+                hh = vf::mix(hh, cls);
+                for (int s = 0; s < steps; s++)
+                {
+                    int k = (int)r.below(10), t = (int)r.below(n);
+                    if (k < 3)
+                    {
+                        uint64_t off = r.below(2) ? 0 : r.below(20), iv = IV[r.below(6)];
+                        bool one = r.below(3) == 0;
+                        ref[t].planned = true;
+                        ref[t].oneshot = one;
+                        ref[t].start = now - off;
+                        ref[t].interval = iv;
+                        mgr->plan(*tim[t], (T)(now - off), (typename Spec::difftime_t)iv);
+                        snprintf(b, sizeof b, "plan(t%d,now-%llu,%llu%s); ", t, (unsigned long long)off, (unsigned long long)iv, one ? ",oneshot" : "");
+                        hh = vf::mix(hh, 1 + t * 7 + off * 31 + iv * 1009 + one);
+                    }
+                    else if (k == 3)
+                    {
+                        tim[t]->unplan();
+                        ref[t].planned = false;
+                        snprintf(b, sizeof b, "unplan(t%d); ", t);
+                        hh = vf::mix(hh, 2 + t * 7);
+                    }
+                    else
+                    {
+                        static const uint64_t DT[] = {0, 1, 1, 2, 3, 5, 20, 40};
+                        uint64_t dt = DT[r.below(8)];
+                        now += dt;
+                        snprintf(b, sizeof b, "exec(now+=%llu); ", (unsigned long long)dt);
+                        hh = vf::mix(hh, 3 + dt * 7);
+                        int before = fired;
+                        in_exec = true;
+                        mgr->exec((T)now);
+                        in_exec = false;
+                        for (int q = 0; q < n; q++)
+                            if (ref[q].planned && ref[q].deadline() <= now)
+                            {
+                                hist += b;
+                                bad("uclock:due-not-run", "timer %d (deadline %llu) is still pending and due after exec(%llu)", q, (unsigned long long)ref[q].deadline(),
+                                    (unsigned long long)now);
+                            }
+                        VF_OK("unsigned clock: at the return of exec(now) no pending timer is due");
+                        if (fired > before)
+                            VF_OK("unsigned clock: exec() that fired at least one callback");
+                    }
+                    hist += b;
+                    compare();
+                }
+                if (cls == 1)
+                    VF_OK("unsigned clock: history crossing 2^31");
+                if (cls == 2)
+                    VF_OK("unsigned clock: history next to the top of the clock's range");
+            }
+            for (int i = 0; i < n; i++)
+                delete tim[i];
+            delete mgr;
+            cur = nullptr;
+        }
+    };
+    uint64_t uclock_count() { return limited("uclock", vf::thorough() ? 200000 : 6000); }
+    void uclock_run(uint64_t idx)
+    {
+        vf::Rng r(vf::seed(), 0x0c10c4, idx);
+        uint64_t hh = idx & 1;
+        bool nt;
+        if (idx & 1)
+        {
+            UClock<uint32_t> u;
+            u.run(r, hh);
+            nt = u.beyond || u.fired > 0;
+            VF_OK("unsigned clock: timer_spec<uint32_t>");
+        }
+        else
+        {
+            UClock<uint64_t> u;
+            u.run(r, hh);
+            nt = u.beyond || u.fired > 0;
+            VF_OK("unsigned clock: timer_spec<uint64_t>");
+        }
+        vf::count_case(hh, nt);
+    }
+    VF_SUITE(uclock, uclock_count, uclock_run)
 } // namespace
 
 extern "C" void vf_setup()
 {
+    for (const char *c : {"unsigned clock: fired timer is pending, due and has the minimum pending deadline",
+                          "unsigned clock: pending set, deadlines, empty() and minimal_interval == reference after every step",
+                          "unsigned clock: a single timer whose deadline lies beyond the clock's range never fires while the clock stays in range",
+                          "unsigned clock: at the return of exec(now) no pending timer is due", "unsigned clock: exec() that fired at least one callback",
+                          "unsigned clock: history crossing 2^31", "unsigned clock: history next to the top of the clock's range",
+                          "unsigned clock: timer_spec<uint32_t>", "unsigned clock: timer_spec<uint64_t>"})
+        vf::require(c);
     for (const char *c : {"an unplanned timer never fires (every firing timer is pending in the reference)", "never fires before start+interval",
                           "each fired timer has the minimum deadline of the pending set at that moment", "at the return of exec(now) no pending timer is due",
                           "exec() that fired at least one callback", "exec() that fired several callbacks (ordering observable)",
